@@ -2487,4 +2487,141 @@ theorem probeWrap_state_probe (L : Coba.C06.Learner σ V) (k : Nat) (s : σ) (n 
 
 end seqx
 
+/-! ## phase 6: `RejectionCB` inside the experiment model (`seqCompsR`) -/
+
+section seqr
+variable {σ V R P : Type} [DecidableEq V] [Coba.C06.RewardFn R V] (w : SeqWorldR σ V R P)
+
+theorem seqCompsR_plain' (w0 : SeqWorldX σ V R P) : seqCompsR ⟨w0, fun _ => none⟩ = seqCompsX w0 := rfl
+
+theorem effSeed_seqCompsR (seed v : Nat) : effSeed (seqCompsR w) seed v = (w.x.base.valSeed v).getD seed := rfl
+
+theorem evalS_seqCompsR_rej (seed : Nat) (t : Triple) (rc : RejConfig) (hv : w.rej t.2.2 = some rc)
+    (inter : List (Coba.C06.Dict (Coba.C06.Fld V R))) (henv : w.x.base.envRows t.1 = .ok inter) :
+    evalS (seqCompsR w) seed t =
+      (rejEvaluate rc (w.x.base.learner t.2.1) (w.x.base.batch t.1) inter (w.x.base.init t.2.1)
+        (Coba.C05.normInt (Int.ofNat (effSeed (seqCompsR w) seed t.2.2)))).1 := by
+  obtain ⟨e, l, v⟩ := t
+  simp only [evalS, seqCompsR, seqEvalR] at hv henv ⊢
+  rw [hv]; dsimp only; rw [henv]
+
+theorem evalS_seqCompsR_seq (seed : Nat) (t : Triple) (hv : w.rej t.2.2 = none) :
+    evalS (seqCompsR w) seed t = evalS (seqCompsX w.x) seed t := by
+  obtain ⟨e, l, v⟩ := t
+  simp only [evalS, seqCompsR, seqEvalR, seqCompsX, effSeed] at hv ⊢
+  rw [hv]
+
+theorem rejectionCB_rows' (cfg : Cfg) (picks : List Nat) (seed : Nat) (ts : List Triple) (t : Triple) (ht : t ∈ ts)
+    (rc : RejConfig) (hv : w.rej t.2.2 = some rc)
+    (inter : List (Coba.C06.Dict (Coba.C06.Fld V R))) (henv : w.x.base.envRows t.1 = .ok inter) :
+    (run (seqCompsR w) cfg picks seed ts).rowsOf (idKey ts t) =
+      match (rejEvaluate rc (w.x.base.learner t.2.1) (w.x.base.batch t.1) inter (w.x.base.init t.2.1)
+              (Coba.C05.normInt (Int.ofNat ((w.x.base.valSeed t.2.2).getD seed)))).1 with
+      | .ok rows => numbered rows
+      | .error _ => [] := by
+  rw [rowsOf_run' (seqCompsR w) cfg picks seed ts t ht, evalS_seqCompsR_rej w seed t rc hv inter henv, effSeed_seqCompsR]
+  generalize (rejEvaluate rc (w.x.base.learner t.2.1) (w.x.base.batch t.1) inter (w.x.base.init t.2.1)
+    (Coba.C05.normInt (Int.ofNat ((w.x.base.valSeed t.2.2).getD seed)))).1 = o
+  cases o <;> rfl
+
+theorem rejectionCB_read_failure' (cfg : Cfg) (picks : List Nat) (seed : Nat) (ts : List Triple) (t : Triple) (ht : t ∈ ts)
+    (rc : RejConfig) (hv : w.rej t.2.2 = some rc) (err : Err) (henv : w.x.base.envRows t.1 = .error err) :
+    (run (seqCompsR w) cfg picks seed ts).rowsOf (idKey ts t) = [] := by
+  rw [rowsOf_run' (seqCompsR w) cfg picks seed ts t ht]
+  obtain ⟨e, l, v⟩ := t
+  simp only [evalS, seqCompsR, seqEvalR] at hv henv ⊢
+  rw [hv]; dsimp only; rw [henv]
+
+theorem sequentialCB_rows_beside_rejectionCB' (cfg cfg' : Cfg) (picks picks' : List Nat) (seed : Nat) (ts : List Triple)
+    (t : Triple) (ht : t ∈ ts) (hv : w.rej t.2.2 = none) :
+    (run (seqCompsR w) cfg picks seed ts).rowsOf (idKey ts t) =
+      (run (seqCompsX w.x) cfg' picks' seed ts).rowsOf (idKey ts t) := by
+  rw [rowsOf_run' (seqCompsR w) cfg picks seed ts t ht, rowsOf_run' (seqCompsX w.x) cfg' picks' seed ts t ht,
+    evalS_seqCompsR_seq w seed t hv]
+
+end seqr
+
+/-! ### facts about the loop of `RejectionCB.evaluate` -/
+
+theorem insortR_length (x : Rat) (q : List Rat) : (insortR x q).length = q.length + 1 := by
+  induction q with
+  | nil => rfl
+  | cons y ys ih => simp only [insortR]; split <;> simp [ih]
+
+theorem insortR_perm (x : Rat) (q : List Rat) : (insortR x q).Perm (x :: q) := by
+  induction q with
+  | nil => exact List.Perm.refl _
+  | cons y ys ih =>
+    simp only [insortR]; split
+    · exact List.Perm.refl _
+    · exact (List.Perm.cons y ih).trans (List.Perm.swap x y ys)
+
+theorem insortR_sorted' (x : Rat) (q : List Rat) (h : q.Pairwise (· ≤ ·)) : (insortR x q).Pairwise (· ≤ ·) := by
+  induction q with
+  | nil => simp [insortR]
+  | cons y ys ih =>
+    simp only [insortR]
+    have hy := List.pairwise_cons.1 h
+    split
+    · rename_i hlt
+      refine List.pairwise_cons.2 ⟨?_, h⟩
+      intro z hz
+      rcases List.mem_cons.1 hz with rfl | hz
+      · exact Rat.le_of_lt hlt
+      · exact Rat.le_trans (Rat.le_of_lt hlt) (hy.1 z hz)
+    · rename_i hnlt
+      refine List.pairwise_cons.2 ⟨?_, ih hy.2⟩
+      intro z hz
+      rcases List.mem_cons.1 ((insortR_perm x ys).mem_iff.1 hz) with rfl | hz
+      · exact Rat.not_lt.1 hnlt
+      · exact hy.1 z hz
+
+/-- every recorded row of the loop belongs to one accepted interaction: at most one row per interaction -/
+theorem rejLoop_rows_le' {σ V R : Type} (rc : RejConfig) (L : Coba.C06.Learner σ V)
+    (ds : List (Coba.C06.Dict (Coba.C06.Fld V R))) :
+    ∀ (s : σ) (g : Nat) (q : List Rat) (c : Rat) (acc rows : List (Coba.C06.Row V R)) (s' : σ),
+      rejLoop rc L ds s g q c acc = (.ok rows, s') → rows.length ≤ acc.length + ds.length := by
+  induction ds with
+  | nil => intro s g q c acc rows s' h; simp only [rejLoop, Prod.mk.injEq, Except.ok.injEq] at h; simp [← h.1]
+  | cons d ds ih =>
+    intro s g q c acc rows s' h
+    simp only [rejLoop] at h
+    split at h
+    · simp at h
+    · split at h
+      · simp at h
+      · split at h
+        · simp at h
+        · split at h
+          · split at h
+            · simp at h
+            · split at h
+              · simp at h
+              · have := ih _ _ _ _ _ _ _ h
+                split at this <;> simp at this ⊢ <;> omega
+          · have := ih _ _ _ _ _ _ _ h
+            simp; omega
+
+theorem rejEvaluate_rows_le' {σ V R : Type} (rc : RejConfig) (L : Coba.C06.Learner σ V) (bs : Option Nat)
+    (env : List (Coba.C06.Dict (Coba.C06.Fld V R))) (s : σ) (g : Nat) (rows : List (Coba.C06.Row V R)) (s' : σ)
+    (h : rejEvaluate rc L bs env s g = (.ok rows, s')) : rows.length ≤ env.length := by
+  unfold rejEvaluate at h
+  split at h
+  · simp only [Prod.mk.injEq, Except.ok.injEq] at h; simp [← h.1]
+  · split at h
+    · simp at h
+    · split at h
+      · simp at h
+      · have := rejLoop_rows_le' rc L _ _ _ _ _ _ _ _ h
+        simpa using this
+
+/-- an empty environment gives no rows and leaves the learner untouched; a learner without `score`, a batched
+environment or a first interaction without the logged fields is refused before the learner is touched -/
+theorem rejEvaluate_refused' {σ V R : Type} (rc : RejConfig) (L : Coba.C06.Learner σ V) (bs : Option Nat)
+    (first : Coba.C06.Dict (Coba.C06.Fld V R)) (rest : List (Coba.C06.Dict (Coba.C06.Fld V R))) (s : σ) (g : Nat)
+    (h : L.hasScore = false ∨ bs.isSome = true ∨ (rejKeys.all (fun k => Coba.C06.Dict.has first k)) = false) :
+    rejEvaluate rc L bs (first :: rest) s g = (.error .raised, s) := by
+  unfold rejEvaluate
+  rcases h with h | h | h <;> simp [h]
+
 end Coba.C01
